@@ -68,14 +68,26 @@ JSON, pydantic; model `UBlock.parseUBT`), `hashsum_file` / `qualified_hashsum` t
 `IH5Manifest.parse_file` raising on a manifest whose hashsum matched, the caller `IH5Record.__init__`
 (mode handling, `find_files`), exception messages and classes other than the table.
 
-Mutation tests (METADOR_REPO=<scratch copy> ./check C04 --tier quick; details in the builder's report)
-  behaviour-changing edits: all break a bridge theorem or the translation (exit 1).
-  behaviour-preserving edits that stay green: renamed locals / parameters, comments and docstrings,
-  reordering independent statements that do not raise (`has_patches` before the sort, `ret._closed`),
-  `if c: raise` nested differently as long as the Lean `simp`/`split` normal form coincides.
-  Known to break the tie although harmless: rewording an exception message, new helper functions or
-  module constants, a `while` loop or `enumerate`/`zip` instead of `range`, iterating `zip(files,
-  files[1:])` instead of indices, keyword arguments in the calls of `_check_ublock`.
+Mutation tests (METADOR_REPO=<scratch worktree> ./check C04 --tier quick, and translate + build of the two bridge
+modules alone for the longer list)
+  behaviour-changing edits, all exit 1 with the bridge obligations named in the replay: `<=` -> `<` in the index
+  check (no failing input: equal indices are a metadata edit outside the property's fault list), `has_patches` =
+  `len > 2`, hash required for the newest container, dup-uuid check dropped (these three also with failing inputs
+  from the oracle); bridge broken as well for: loop from 2, `and` -> `or` in the missing-hash test, `!=` -> `==`
+  for the manifest hash, `allow_baseless` test inverted, `skip_bytes=0` (not in the dictionary), USER_BLOCK_SIZE =
+  512, predecessor of the newest container = `_ublock(0)`, stub assertion removed, `if prev is not None` removed
+  (AttributeError reachable), sort removed, `is_file()` test removed (FileNotFoundError reachable).
+  Seeded changes C04-s1 (hash cache), s2 (predecessor by uuid), s3 (hash of the re-serialised manifest): not
+  translatable (`translate:C04` undischarged + bridge); s4 (base test moved under `if has_patches`): translated,
+  `gen_open_core` no longer provable.
+  behaviour-preserving edits that stay green: renamed locals / parameters, comments and docstrings, `has_patches`
+  computed before the sort, `ret._closed = False` moved, `a if c else b` <-> if-statement in `_ublock`, `not (a ==
+  b)` for `a != b`, `has_patches` inlined, `_ublock(files[0])` for `_ublock(0)`, a local for `files[-1]`, operands
+  of the `elif` test swapped.
+  Known to break the tie although harmless for accept/reject: swapping two checks that raise (the bridge is about
+  *which* error is raised, too), rewording an exception message, new helper functions or module constants, a
+  `while` loop / `enumerate` / `zip(files, files[1:])` instead of `range`, keyword arguments in the calls of
+  `_check_ublock`, another exception class than ValueError.
 """
 import ast
 import os
@@ -609,6 +621,12 @@ class Fn:
             return self.exprstmt(s.value, ind, s)
         if isinstance(s, ast.If):
             c = self.truth(self.ex(s.test), s)
+            if c.static is not None:
+                # `isinstance` on a specialised parameter: only the branch that is taken
+                out = []
+                for s2 in (s.body if c.static else s.orelse):
+                    out += self.stmt(s2, ind, top)
+                return out
             out = ["%sif %s then" % (ind, c.lean)]
             saved = dict(self.env)
             out += self.block(s.body, ind + "  ")
@@ -930,6 +948,10 @@ class Gen:
         except TranslateError as e:
             self.errors.append(str(e) if str(e).startswith(key) else "%s: %s" % (key, e))
             self.out.append("/-! NOT TRANSLATED `%s`: %s -/\n" % (key, str(e).replace("-/", "- /")))
+        except Exception as e:  # noqa: BLE001  (a shape the translator did not foresee: an obligation, never a crash)
+            msg = "%s: not understood (%s: %s)" % (key, type(e).__name__, e)
+            self.errors.append(msg)
+            self.out.append("/-! NOT TRANSLATED `%s`: %s -/\n" % (key, msg.replace("-/", "- /")))
 
     def fn_defaults(self, f, ptypes):
         """Lean text of the default values of the positional parameters (None where there is none)"""
@@ -1027,7 +1049,14 @@ def _path(lean_mod):
 
 def write(lean_mod):
     """regenerate Gen/ChainCheck.lean; returns an info string"""
-    text, errors = gen_chaincheck()
+    try:
+        text, errors = gen_chaincheck()
+    except Exception as e:  # noqa: BLE001
+        # nothing could be translated: leave no text of an earlier run (possibly of another tree) behind
+        write_stub(lean_mod, "%s: %s" % (type(e).__name__, e))
+        if isinstance(e, TranslateError):
+            raise
+        raise TranslateError("%s: %s" % (type(e).__name__, e))
     changed = lean_mod.write_if_changed(_path(lean_mod), text)
     if errors:
         # what could be translated is written (so that only the bridge modules of the affected functions fail)
